@@ -30,7 +30,7 @@ SPECIAL = [
     '﻿bom first', 'mid﻿bom', 'nul\x00byte', 'lone\rcr',
     '    indented', ' x', '  ', '\t tab', '',
     'ੁ\x00', 'Ā', 'ഊ', '上', '਀', '਍',
-    'aੁb', 'ਊ', '഍ਊ',
+    'aੁb', 'ਊ', '഍ਊ', 'ੁ　', '䄀ੁ',
     'sep line', 'nel\u0085x', 'vt\x0bx', 'ff\x0cx',
     'é', 'Жя', '中文', '{"json": 1}', '}', '..', '...',
 ]
@@ -71,6 +71,16 @@ def line_st(enc):
 
 
 TERMS = ['\n', '\n', '\n', '\r\n', '\r\n', '\r']
+LONG_SIZES = [94, 95, 96, 97, 191, 192, 193, 4094, 4095, 4096, 4097, 8191,
+              8192, 8193, 94, 96, 4095, 4096, 65535, 65536, 65537, 70000]
+
+
+@functools.lru_cache(maxsize=None)
+def _encodable_in(s, enc):
+    try:
+        return s.encode(enc).decode(enc) == s
+    except Exception:
+        return False
 
 
 @st.composite
@@ -93,7 +103,19 @@ def texts(draw, enc, max_lines=6, nonempty=True):
             else:
                 parts.append(draw(st.sampled_from(TERMS)))
 
+    # size boundaries: a line longer than the reader's read-ahead block,
+    # than a 4 KiB / 8 KiB buffer, than a 64 KiB block
+    if draw(st.integers(0, 11)) == 0:
+        k = draw(st.sampled_from(LONG_SIZES))
+        i = draw(st.sampled_from([0, 0, n - 1, draw(st.integers(0, n - 1))]))
+        idxs = [j for j, p_ in enumerate(parts) if p_ not in TERMS]
+        parts[idxs[min(i, len(idxs) - 1)]] = 'L' * k
+
     text = ''.join(parts)
+
+    # a text that itself starts with U+FEFF (not a codec BOM)
+    if draw(st.integers(0, 9)) == 0 and _encodable_in('\ufeff', enc):
+        text = '\ufeff' + text
 
     if nonempty and not text:
         text = 'x'
@@ -109,11 +131,13 @@ _json_leaf = st.one_of(
     st.floats(allow_nan=False, allow_infinity=False, width=64),
     st.sampled_from(['', 'value', 'é', '中', 'a\nb', 'q"uote', 'back\\slash',
                      '#.change:', '\x00', '\x7f', 'tab\t', '﻿',
+                     '\ud800', 'lone\udc80', '\udfffend',
                      ' ']),
     st.text(max_size=8),
 )
 _json_key = st.one_of(
     st.sampled_from(['path', 'stats', 'id', 'k', 'key with space', 'é',
+                     'sur\udc81',
                      '', 'a', 'b', 'z', 'A', '1', 'revision', 'op']),
     st.text(max_size=5),
 )
